@@ -131,6 +131,27 @@ theorem not_hasPanic_of_ok : ∀ (r : PR ι), status r = .ok → hasPanic r = fa
     cases ha : status a <;> cases hb : status b <;> simp [ha, hb] at h
     simp [hasPanic, not_hasPanic_of_ok a ha, not_hasPanic_of_ok b hb]
 
+theorem quiescent_of_ok : ∀ (r : PR ι), status r = .ok → quiescent r = true
+  | .nil, _ => rfl
+  | .fin, _ => rfl
+  | .dead, _ => rfl
+  | .leaf _, _ => rfl
+  | .closing _, h => by simp [status] at h
+  | .scope _ _, _ => rfl
+  | .scopeOpen _ _, h => by simp [status] at h
+  | .seq a b, h => by
+    simp only [status] at h
+    cases ha : status a with
+    | panicked => simp [ha] at h
+    | running => simp [ha] at h
+    | ok =>
+      simp only [ha] at h
+      simp [quiescent, quiescent_of_ok a ha, quiescent_of_ok b h]
+  | .par a b, h => by
+    simp only [status] at h
+    cases ha : status a <;> cases hb : status b <;> simp [ha, hb] at h
+    simp [quiescent, quiescent_of_ok a ha, quiescent_of_ok b hb]
+
 /-- a finished part may always stop -/
 theorem finalOk_of_done : ∀ (r : PR ι) (ab : Bool), status r ≠ .running → finalOk r ab = true
   | .nil, _, _ => rfl
@@ -190,6 +211,174 @@ theorem finalOk_mono : ∀ (r : PR ι) (ab : Bool), finalOk r ab = true → fina
   | .par a b, ab, h => by
     simp only [finalOk, Bool.and_eq_true] at *
     exact ⟨by simpa using finalOk_mono a _ h.1, by simpa using finalOk_mono b _ h.2⟩
+
+/-! ### how a run of a composite residual splits -/
+
+theorem steps_fin {l : List (PEv ι)} {r' : PR ι} (h : steps (.fin : PR ι) l = some r') : l = [] ∧ r' = .fin :=
+  steps_of_done (by simp [status]) h
+
+theorem steps_dead {l : List (PEv ι)} {r' : PR ι} (h : steps (.dead : PR ι) l = some r') : l = [] ∧ r' = .dead :=
+  steps_of_done (by simp [status]) h
+
+theorem steps_closing {s : ι} {l : List (PEv ι)} {r' : PR ι} (h : steps (.closing s) l = some r') :
+    (l = [] ∧ r' = .closing s) ∨ (l = [.D s] ∧ r' = .fin) ∨ (l = [.P s] ∧ r' = .dead) := by
+  cases l with
+  | nil => simp [steps] at h; exact Or.inl ⟨rfl, h.symm⟩
+  | cons e l =>
+    simp only [steps, deriv] at h
+    by_cases h1 : e = .D s
+    · subst h1
+      simp only [↓reduceIte] at h
+      obtain ⟨hl, hr⟩ := steps_fin h
+      subst hl; exact Or.inr (Or.inl ⟨rfl, hr⟩)
+    · by_cases h2 : e = .P s
+      · subst h2
+        simp only [reduceCtorEq, ↓reduceIte] at h
+        obtain ⟨hl, hr⟩ := steps_dead h
+        subst hl; exact Or.inr (Or.inr ⟨rfl, hr⟩)
+      · simp [h1, h2] at h
+
+theorem steps_leaf {s : ι} {l : List (PEv ι)} {r' : PR ι} (h : steps (.leaf s) l = some r') :
+    (l = [] ∧ r' = .leaf s) ∨ (l = [.F s] ∧ r' = .closing s) ∨
+    (l = [.F s, .D s] ∧ r' = .fin) ∨ (l = [.F s, .P s] ∧ r' = .dead) := by
+  cases l with
+  | nil => simp [steps] at h; exact Or.inl ⟨rfl, h.symm⟩
+  | cons e l =>
+    simp only [steps, deriv] at h
+    by_cases h1 : e = .F s
+    · subst h1
+      simp only [↓reduceIte] at h
+      rcases steps_closing h with ⟨hl, hr⟩ | ⟨hl, hr⟩ | ⟨hl, hr⟩
+      · subst hl; exact Or.inr (Or.inl ⟨rfl, hr⟩)
+      · subst hl; exact Or.inr (Or.inr (Or.inl ⟨rfl, hr⟩))
+      · subst hl; exact Or.inr (Or.inr (Or.inr ⟨rfl, hr⟩))
+    · simp [h1] at h
+
+/-- a run of `seq a b` is a run of `a` followed by a run of `b`, and `b` is touched only once
+`a` has finished without panic -/
+theorem steps_seq {a b : PR ι} {l : List (PEv ι)} {r' : PR ι} (h : steps (.seq a b) l = some r') :
+    ∃ la lb a' b', l = la ++ lb ∧ steps a la = some a' ∧ steps b lb = some b' ∧ r' = .seq a' b' ∧
+      (lb = [] ∨ status a' = .ok) := by
+  induction l generalizing a b with
+  | nil =>
+    simp [steps] at h
+    exact ⟨[], [], a, b, rfl, rfl, rfl, h.symm, Or.inl rfl⟩
+  | cons e l ih =>
+    simp only [steps, deriv] at h
+    cases hs : status a with
+    | panicked => simp [hs] at h
+    | ok =>
+      simp only [hs] at h
+      cases hb : deriv b e with
+      | none => simp [hb] at h
+      | some b1 =>
+        simp only [hb, Option.map_some] at h
+        obtain ⟨la, lb, a', b', hl, ha, hb', hr, _⟩ := ih h
+        obtain ⟨hla, ha'⟩ := steps_of_done (by simp [hs]) ha
+        subst hla
+        refine ⟨[], e :: lb, a', b', by simp [hl], ha, ?_, hr, Or.inr (by rw [ha']; exact hs)⟩
+        simp [steps, hb, hb']
+    | running =>
+      simp only [hs] at h
+      cases ha : deriv a e with
+      | none => simp [ha] at h
+      | some a1 =>
+        simp only [ha, Option.map_some] at h
+        obtain ⟨la, lb, a', b', hl, ha', hb', hr, hc⟩ := ih h
+        refine ⟨e :: la, lb, a', b', by simp [hl], ?_, hb', hr, hc⟩
+        simp [steps, ha, ha']
+
+/-- a run of `par a b` is an interleaving of a run of `a` and a run of `b` -/
+theorem steps_par {a b : PR ι} {l : List (PEv ι)} {r' : PR ι} (h : steps (.par a b) l = some r') :
+    ∃ la lb a' b', Shuffle la lb l ∧ steps a la = some a' ∧ steps b lb = some b' ∧ r' = .par a' b' := by
+  induction l generalizing a b with
+  | nil =>
+    simp [steps] at h
+    exact ⟨[], [], a, b, .nil, rfl, rfl, h.symm⟩
+  | cons e l ih =>
+    simp only [steps, deriv] at h
+    cases ha : deriv a e with
+    | some a1 =>
+      simp only [ha] at h
+      obtain ⟨la, lb, a', b', hsh, ha', hb', hr⟩ := ih h
+      exact ⟨e :: la, lb, a', b', .left hsh, by simp [steps, ha, ha'], hb', hr⟩
+    | none =>
+      simp only [ha] at h
+      cases hb : deriv b e with
+      | none => simp [hb] at h
+      | some b1 =>
+        simp only [hb, Option.map_some] at h
+        obtain ⟨la, lb, a', b', hsh, ha', hb', hr⟩ := ih h
+        exact ⟨la, e :: lb, a', b', .right hsh, ha', by simp [steps, hb, hb'], hr⟩
+
+/-- a run of an opened batch: a run of its body, possibly followed by the batch's own end -/
+theorem steps_scopeOpen {s : ι} {body : PR ι} {l : List (PEv ι)} {r' : PR ι}
+    (h : steps (.scopeOpen s body) l = some r') :
+    ∃ lb b', steps body lb = some b' ∧
+      ((l = lb ∧ r' = .scopeOpen s b') ∨
+       (l = lb ++ [.D s] ∧ status b' = .ok ∧ r' = .fin) ∨
+       (l = lb ++ [.P s] ∧ (status b' = .panicked ∨ quiescent b' = true) ∧ r' = .dead)) := by
+  induction l generalizing body with
+  | nil =>
+    simp [steps] at h
+    exact ⟨[], body, rfl, Or.inl ⟨rfl, h.symm⟩⟩
+  | cons e l ih =>
+    simp only [steps, deriv] at h
+    cases hb : deriv body e with
+    | some b1 =>
+      simp only [hb] at h
+      obtain ⟨lb, b', hb', hcases⟩ := ih h
+      refine ⟨e :: lb, b', by simp [steps, hb, hb'], ?_⟩
+      rcases hcases with ⟨hl, hr⟩ | ⟨hl, hst, hr⟩ | ⟨hl, hst, hr⟩
+      · exact Or.inl ⟨by simp [hl], hr⟩
+      · exact Or.inr (Or.inl ⟨by simp [hl], hst, hr⟩)
+      · exact Or.inr (Or.inr ⟨by simp [hl], hst, hr⟩)
+    | none =>
+      simp only [hb] at h
+      by_cases hD : e = .D s
+      · subst hD
+        cases hst : status body with
+        | ok =>
+          simp only [hst, ↓reduceIte] at h
+          obtain ⟨hl, hr⟩ := steps_fin h
+          subst hl
+          exact ⟨[], body, rfl, Or.inr (Or.inl ⟨rfl, hst, hr⟩)⟩
+        | panicked => simp [hst] at h
+        | running => simp [hst] at h
+      · by_cases hP : e = .P s
+        · subst hP
+          cases hst : status body with
+          | ok =>
+            simp only [hst, reduceCtorEq, ↓reduceIte] at h
+            obtain ⟨hl, hr⟩ := steps_dead h
+            subst hl
+            exact ⟨[], body, rfl, Or.inr (Or.inr ⟨rfl, Or.inr (quiescent_of_ok body hst), hr⟩)⟩
+          | panicked =>
+            simp only [hst, ↓reduceIte] at h
+            obtain ⟨hl, hr⟩ := steps_dead h
+            subst hl
+            exact ⟨[], body, rfl, Or.inr (Or.inr ⟨rfl, Or.inl hst, hr⟩)⟩
+          | running =>
+            simp only [hst, decide_true, Bool.true_and] at h
+            by_cases hq : quiescent body = true
+            · simp only [hq, ↓reduceIte] at h
+              obtain ⟨hl, hr⟩ := steps_dead h
+              subst hl
+              exact ⟨[], body, rfl, Or.inr (Or.inr ⟨rfl, Or.inr hq, hr⟩)⟩
+            · simp [hq] at h
+        · cases hst : status body <;> simp [hst, hD, hP] at h
+
+theorem steps_scope {s : ι} {body : PR ι} {l : List (PEv ι)} {r' : PR ι} (h : steps (.scope s body) l = some r') :
+    (l = [] ∧ r' = .scope s body) ∨ ∃ l', l = .F s :: l' ∧ steps (.scopeOpen s body) l' = some r' := by
+  cases l with
+  | nil => simp [steps] at h; exact Or.inl ⟨rfl, h.symm⟩
+  | cons e l =>
+    simp only [steps, deriv] at h
+    by_cases h1 : e = .F s
+    · subst h1
+      simp only [↓reduceIte] at h
+      exact Or.inr ⟨l, rfl, h⟩
+    · simp [h1] at h
 
 end PR
 end Shred
